@@ -105,6 +105,10 @@ def gen_cases(rng, tier):
     for i in range(4 if q else 40):
         # codon models are ~100x slower to set up: one problem per case
         cases.append({"kind": "prog", "seed": rng.randrange(2**32), "n": 1, "model": "codon"})
+    for i in range(12 if q else 120):
+        cases.append({"kind": "sw", "seed": rng.randrange(2**32), "n": 25, "moltype": "dna" if i % 3 else "protein"})
+    for i in range(12 if q else 120):
+        cases.append({"kind": "reuse", "seed": rng.randrange(2**32), "n": 4, "model": ["nucleotide", "protein", "nucleotide"][i % 3]})
     for i in range(40 if q else 300):
         cases.append({"kind": "history", "seed": rng.randrange(2**32), "steps": 16 if q else 30})
     return cases
@@ -132,6 +136,11 @@ def required(counters, tier):
         "history:pair-after-edit",
         "history:toref-after-edit",
         "toref:emissions-vs-current-dict",
+        "sw:asymmetric:first-longer",
+        "sw:asymmetric:second-longer",
+        "reuse:cached-tree/same-names",
+        "reuse:cached-tree/more-names",
+        "reuse:given-tree/tree-lacks-a-sequence",
     ]
     return [k for k in need if not counters.get(k)]
 
@@ -1323,6 +1332,259 @@ def check_history(res, case):
 
 
 # ---------------------------------------------------------------------------
+# the smith_waterman app: same oracle as local_pairwise, but the model is built from the arguments AS GIVEN
+# (first sequence of the collection x second sequence, S[(motif of first, motif of second)])
+
+
+def given_model_cap(cap, first, second, moltype, S):
+    """a capture whose emissions are re-derived from the scoring dict for (first, second); transitions as observed"""
+    alpha = alphabet_of(moltype)
+    pos = {c: i for i, c in enumerate(alpha)}
+    logn = math.log(len(alpha))
+    n, m = len(first), len(second)
+    M = np.zeros((1, n + 2, m + 2))
+    for i, a in enumerate(first, 1):
+        for j, b in enumerate(second, 1):
+            M[0, i, j] = logn + S[pos[a]][pos[b]]
+    return {
+        **cap,
+        "M": M,
+        "X": np.zeros((1, n + 2)),
+        "Y": np.zeros((1, m + 2)),
+        "i1": list(range(n + 2)),
+        "i2": list(range(m + 2)),
+        "p1": [[]] + [[k - 1] for k in range(1, n + 2)],
+        "p2": [[]] + [[k - 1] for k in range(1, m + 2)],
+    }
+
+
+def check_sw(res, case):
+    from cogent3 import get_app, make_unaligned_seqs
+
+    s1, s2, moltype, S, d, e = case["s1"], case["s2"], case["moltype"], case["S"], case["d"], case["e"]
+    skind = case.get("skind", "?")
+    op = "C18/smith_waterman"
+    replay = {"kind": "one-sw", **{k: case[k] for k in ("s1", "s2", "moltype", "S", "d", "e")}, "skind": skind}
+
+    def bad(mech, **detail):
+        res.witness(mech, s1=s1, s2=s2, moltype=moltype, d=d, e=e, scoring=skind, **detail, replay_case=replay)
+
+    alpha = alphabet_of(moltype)
+    Sd = {(a, b): S[i][j] for i, a in enumerate(alpha) for j, b in enumerate(alpha)}
+    data = {"first": s1, "second": s2}
+    try:
+        with Setting(HUGE) as st:
+            seqs = make_unaligned_seqs(data, moltype=moltype)
+            app = get_app("smith_waterman", score_matrix=Sd, insertion_penalty=d, extension_penalty=e, moltype=moltype)
+            out = app(seqs)
+            if not hasattr(out, "to_dict"):
+                mech, err = app_failure(app, seqs, op)
+                res.evals += 1
+                bad(mech, error=err)
+                return
+            rows = out.to_dict()
+            names = list(out.names)
+            reported = out.info.get("align_params", {}).get("sw_score")
+    except Exception as ex:  # noqa: BLE001
+        res.evals += 1
+        bad(exc_mechanism(op, ex), error=repr(ex)[:300])
+        return
+    order = "first-longer" if len(s1) > len(s2) else ("second-longer" if len(s2) > len(s1) else "equal-length")
+    res.count("sw:app")
+    res.count("sw:" + order)
+    res.count("sw:scoring:" + skind)
+    if names != ["first", "second"]:
+        res.count("sw:row-order-differs-from-input")  # observation only: the property speaks about rows, not their order
+    # clause 1: each NAMED row is a contiguous part of the input with that name
+    res.evals += 1
+    if sorted(rows) != ["first", "second"]:
+        bad(f"{op}/rows-missing", rows=rows)
+        return
+    r1, r2 = rows["first"], rows["second"]
+    if len(r1) != len(r2):
+        bad(f"{op}/ragged", rows=rows)
+        return
+    u1, u2 = r1.replace("-", ""), r2.replace("-", "")
+    o1, o2 = occurrences(u1, s1) if u1 else [], occurrences(u2, s2) if u2 else []
+    if not o1 or not o2:
+        bad(f"{op}/rows-not-contiguous-part-of-the-input-of-that-name", rows=rows)
+        return
+    if len(st.caps) != 1 or not st.caps[0]["use_logs"]:
+        res.count("sw:unexpected-capture")
+        return
+    cap = st.caps[0]
+    # transitions: those the gap penalties define (inner 3x3), then the model for the arguments as given
+    name = {(1, 0): "X", (0, 1): "Y", (1, 1): "M"}
+    stt = {name[dx, dy]: s_ for s_, _, dx, dy in cap["sd"]}
+    ET = expected_T(d, e)
+    res.evals += 1
+    if any(abs(cap["T"][stt[a], stt[b]] - ET[a, b]) > 1e-12 + 1e-9 * ET[a, b] for a in "XYM" for b in "XYM"):
+        bad(f"{op}/transitions-differ-from-gap-penalties")
+        return
+    hmm = HMM(given_model_cap(cap, s1, s2, moltype, S))
+    opt = hmm.viterbi(True)
+    res.evals += 2
+    if reported is None or not close(float(reported), opt):
+        which = "missing" if reported is None else ("suboptimal" if opt > reported else "exceeds-optimum")
+        bad(f"{op}/reported-score-{which}-for-the-scoring-dict-as-given", rows=rows, reported=reported, optimum=opt, order=order)
+    vals = [hmm.score_rows(r1, r2, a, b, True) for a in o1 for b in o2]
+    if reported is not None and not any(close(v, float(reported)) for v in vals):
+        bad(f"{op}/reported-score-differs-from-rescored-path-for-the-scoring-dict-as-given", rows=rows, reported=reported, rescored=vals, optimum=opt, order=order)
+    if len(s1) <= 6 and len(s2) <= 6 and len(s1) * len(s2) <= 30:
+        bf, _ = hmm.brute(True)
+        res.evals += 1
+        res.count("sw:enumerated")
+        if not close(bf, opt):
+            bad("C18/harness/viterbi-model-disagrees-with-enumeration", optimum=opt, best=bf)
+    lay = layout_class(r1, r2)
+    trimmed = len(u1) < len(s1) and len(u2) < len(s2)
+    if skind == "asym":
+        res.count("sw:asymmetric:" + order)
+    if trimmed or (lay[0] and lay[1]) or skind == "asym":
+        res.sig("sw", moltype, skind, order, "trim" if trimmed else "full", *lay[:2])
+    res.sample({"s1": s1, "s2": s2, "d": d, "e": e, "rows": rows, "sw_score": reported})
+
+
+def gen_sw(rng, moltype):
+    letters = list("ACGT") if moltype == "dna" else rng.choice([list("AKLMV"), list("ACDEFGHIKLMNPQRSTVWY")])
+    alpha = alphabet_of(moltype)
+    n = len(alpha)
+    idx = [alpha.index(c) for c in letters]
+    kind = rng.choice(["asym", "asym", "asym", "randsym", "generic"])
+    S = [[(rng.randint(2, 10) if i == j else -1) for j in range(n)] for i in range(n)]
+    if kind != "generic":
+        for i in idx:
+            for j in idx:
+                if i < j:
+                    S[i][j] = S[j][i] = rng.randint(-8, 1)
+    if kind == "asym":
+        # strongly asymmetric among the letters in use: (a, b) pairs well, (b, a) does not
+        for _ in range(max(2, len(idx) // 2)):
+            i, j = rng.sample(idx, 2)
+            S[i][j], S[j][i] = rng.randint(3, 9), rng.randint(-9, -4)
+    core = rand_seq(rng, letters, rng.randint(3, 14))
+    a = rand_seq(rng, letters, rng.randint(0, 6)) + core + rand_seq(rng, letters, rng.randint(0, 6))
+    b = rand_seq(rng, letters, rng.randint(0, 4)) + mutate(rng, core, letters, 0.1, 0.25) + rand_seq(rng, letters, rng.randint(0, 12))
+    if rng.random() < 0.2:
+        b = rand_seq(rng, letters, rng.randint(1, 20))
+    if rng.random() < 0.5:
+        a, b = b, a
+    return a[:30], b[:30], kind, S, rng.choice([1, 2, 5, 10, 20]), rng.choice([0, 1, 2])
+
+
+# ---------------------------------------------------------------------------
+# progressive_align: ONE app instance over several collections, and guide trees that do not match the collection.
+# Either the app declines (NotCompleted) or it returns one row per input sequence whose degapped content is that input.
+
+
+def check_reuse(res, case):
+    from cogent3 import get_app, make_unaligned_seqs
+
+    model, calls = case["model"], case["calls"]
+    moltype = "protein" if model == "protein" else "dna"
+    kw = dict(case.get("kwargs", {}))
+    op = "C18/progressive/app-reuse"
+    replay = {"kind": "one-reuse", "model": model, "calls": calls, "kwargs": kw}
+    try:
+        app = get_app("progressive_align", model, **kw)
+    except Exception as ex:  # noqa: BLE001
+        res.evals += 1
+        res.witness(exc_mechanism(op + "/constructor", ex), model=model, kwargs=kw, error=repr(ex)[:300], replay_case=replay)
+        return
+    tree_names = set(case["tree_names"]) if case.get("tree_names") else None
+    prev = None
+    for k, data in enumerate(calls):
+        names = set(data)
+        if tree_names is not None:
+            rel = "same-names" if names == tree_names else ("tree-lacks-a-sequence" if names > tree_names else "tree-has-extra-tip" if names < tree_names else "names-differ")
+            cls = "given-tree/" + rel
+        elif prev is None:
+            cls = "first-call"
+        else:
+            rel = "same-names" if names == prev else ("more-names" if names > prev else "fewer-names" if names < prev else "names-differ")
+            cls = ("fresh-tree-each-call/" if kw.get("unique_guides") else "cached-tree/") + rel
+        prev = names if prev is None else prev  # the tree estimated at the first completed call is the one that is kept
+
+        def bad(mech, **detail):
+            res.witness(mech, model=model, kwargs=kw, calls=calls, call=k, situation=cls, **detail, replay_case=replay)
+
+        try:
+            with Setting(HUGE):
+                out = app(make_unaligned_seqs(data, moltype=moltype))
+        except Exception as ex:  # noqa: BLE001
+            res.evals += 1
+            bad(exc_mechanism(f"{op}/{cls}", ex), error=repr(ex)[:300])
+            continue
+        res.evals += 1
+        res.count("reuse:" + cls)
+        if not hasattr(out, "to_dict"):
+            res.refused += 1
+            res.count("reuse:declined:" + cls)
+            if cls == "first-call":
+                prev = None
+            continue
+        rows = out.to_dict()
+        res.count("reuse:aligned:" + cls)
+        missing = sorted(names - set(rows))
+        extra = sorted(set(rows) - names)
+        if missing:
+            bad(f"{op}/{cls}/input-sequences-missing-from-result", missing=missing, rows=rows)
+            continue
+        if extra:
+            bad(f"{op}/{cls}/rows-that-are-no-input", extra=extra, rows=rows)
+            continue
+        if len({len(v) for v in rows.values()}) != 1:
+            bad(f"{op}/{cls}/ragged", rows=rows)
+            continue
+        wrong = [n_ for n_ in sorted(names) if rows[n_].replace("-", "") != data[n_]]
+        if wrong:
+            bad(f"{op}/{cls}/degapped-rows-differ-from-input", wrong=wrong, rows=rows)
+            continue
+        res.sig("reuse", model, cls, min(len(names), 5), any("-" in v for v in rows.values()))
+    res.sample({"calls": calls[:2], "kwargs": kw})
+
+
+def gen_reuse(rng, model):
+    letters = list("ACGT") if model == "nucleotide" else list("ACDEFGHIKLMNPQRSTVWY")
+    base = rand_seq(rng, letters, rng.randint(10, 30))
+    pool = [f"s{i}" for i in range(6)]
+
+    def coll(names):
+        return {n_: mutate(rng, base, letters, 0.08, 0.1) for n_ in names}
+
+    first = rng.sample(pool, rng.randint(3, 5))
+    kw = {"indel_rate": rng.choice([0.01, 0.05]), "indel_length": rng.choice([0.1, 0.3])}
+    scenario = rng.choice(["cached", "cached", "given", "unique"])
+    tree_names = None
+    if scenario == "given":
+        tnames = list(first)
+        tree_names = tnames
+        kw["guide_tree"] = newick_for(rng, tnames)
+    elif scenario == "unique":
+        kw["unique_guides"] = True
+    calls = [coll(first)]
+    others = [n_ for n_ in pool if n_ not in first]
+    for _ in range(rng.randint(2, 3)):
+        how = rng.choice(["same", "same", "more", "fewer", "swap"])
+        if how == "more" and others:
+            names = first + [rng.choice(others)]
+        elif how == "fewer" and len(first) > 3:
+            names = rng.sample(first, len(first) - 1)
+        elif how == "swap" and others:
+            names = first[:-1] + [rng.choice(others)]
+        else:
+            names = list(first)
+        rng.shuffle(names)
+        calls.append(coll(names))
+    if scenario == "given" and rng.random() < 0.5:
+        # the very first call already disagrees with the given tree
+        calls[0] = coll(first + [others[0]]) if others else calls[0]
+    if scenario == "unique":
+        tree_names = None
+    return {"model": model, "calls": calls, "kwargs": kw, "tree_names": tree_names, "scenario": scenario}
+
+
+# ---------------------------------------------------------------------------
 
 
 def run_case(case):
@@ -1370,6 +1632,19 @@ def run_case(case):
                 )  # fmt: skip
     elif kind == "history":
         check_history(res, case)
+    elif kind == "sw":
+        rng = random.Random(case["seed"])
+        for _ in range(case["n"]):
+            s1, s2, skind, S, d, e = gen_sw(rng, case["moltype"])
+            check_sw(res, {"s1": s1, "s2": s2, "moltype": case["moltype"], "S": S, "d": d, "e": e, "skind": skind})
+    elif kind == "one-sw":
+        check_sw(res, case)
+    elif kind == "reuse":
+        rng = random.Random(case["seed"])
+        for _ in range(case["n"]):
+            check_reuse(res, gen_reuse(rng, case["model"]))
+    elif kind == "one-reuse":
+        check_reuse(res, case)
     elif kind == "one-pair":
         check_pair(res, case)
     elif kind == "toref":
